@@ -71,11 +71,14 @@ Proof.
   f_equal; lia.
 Qed.
 
-Lemma binds_from_method raw sh : wf raw -> 1 <= npos raw ->
+Lemma binds_from_method raw sh : wf raw -> (1 <= npos raw \/ varargs raw = true) ->
   (binds (from_function raw 1) sh <-> binds raw (S (fst sh), snd sh)).
 Proof.
   destruct raw as [r n v k], sh as [j kw]. unfold wf, from_function, binds.
-  cbn [req npos varargs kwargs fst snd]. intros. intuition lia.
+  cbn [req npos varargs kwargs fst snd]. intros Hwf Hself.
+  destruct n as [|n]; cbn [Nat.min].
+  - destruct Hself as [Hself|Hself]; [lia|]. subst v. intuition lia.
+  - intuition lia.
 Qed.
 
 Lemma from_function_wf raw l : wf (from_function raw l).
@@ -120,7 +123,7 @@ Lemma check_sigs_class n i m :
   = if match incompat i m with None => true | Some _ => false end then None else Some (FBrokenMethod n).
 Proof. unfold check_sigs. destruct (incompat i m); reflexivity. Qed.
 
-Lemma kernel_decides i self raw : wf i -> wf raw -> (self = true -> 1 <= npos raw) ->
+Lemma kernel_decides i self raw : wf i -> wf raw -> (self = true -> 1 <= npos raw \/ varargs raw = true) ->
   (incompat i (from_function raw (if self then 1 else 0)) = None
    <-> all_admitted_bindb i self raw = true).
 Proof.
@@ -130,7 +133,7 @@ Proof.
   - rewrite from_function_0 by assumption. reflexivity.
 Qed.
 
-Lemma kernel_decides_b i self raw : wf i -> wf raw -> (self = true -> 1 <= npos raw) ->
+Lemma kernel_decides_b i self raw : wf i -> wf raw -> (self = true -> 1 <= npos raw \/ varargs raw = true) ->
   match incompat i (from_function raw (if self then 1 else 0)) with None => true | Some _ => false end
   = all_admitted_bindb i self raw.
 Proof.
@@ -291,11 +294,24 @@ Proof.
   - intros s ->. apply wfb_spec, Hd.
   - intros sb raw E. rewrite E in Ha. rewrite andb_true_iff, orb_true_iff in Ha.
     destruct Ha as [Hw Hs]. split; [apply wfb_spec, Hw|].
-    intros ->. destruct Hs as [Hs|Hs]; [discriminate|apply Nat.leb_le, Hs].
+    intros ->. rewrite orb_true_iff in Hs. destruct Hs as [[Hs|Hs]|Hs];
+      [discriminate|left; apply Nat.leb_le, Hs|right; exact Hs].
 Qed.
 
 Lemma forallb_elem_wfb vt cit l : forallb (elem_wfb vt cit) l = true -> Forall (elem_wf vt cit) l.
 Proof.
   intros H. apply Forall_forall. intros e He. apply elem_wfb_sound.
   rewrite forallb_forall in H. apply H, He.
+Qed.
+
+(* Outside the property's scope (a method with neither a first parameter nor *args cannot be
+   called through an instance at all), recorded honestly: the code accepts such a method. *)
+Lemma selfless_method_accepted :
+  exists iface raw, wf iface /\ wf raw /\ npos raw = 0 /\ varargs raw = false /\
+    incompat iface (from_function raw 1) = None /\
+    (forall sh, ~ call_binds true raw sh).
+Proof.
+  exists (mkSig 0 0 false false), (mkSig 0 0 false true).
+  repeat split; try (vm_compute; auto; fail).
+  intros [k kw]. unfold call_binds, binds. cbn. intros [_ [[H|H] _]]; [inversion H|discriminate].
 Qed.
